@@ -11,6 +11,7 @@ build profiles; nothing is bounded.
 -/
 import CamVerif.Proofs.C11Stream
 import CamVerif.Proofs.C11Pixel
+import CamVerif.Proofs.C11Growth
 import CamVerif.Spec.PFNC
 namespace CamVerif.C11
 open CamVerif CamVerif.Stream
@@ -685,5 +686,283 @@ example : ∃ pl, verifBuildPayload .dev exLeader exTrailer (exBuf.take 10) 20 =
 
 example : decode 0x01080001 = some .Mono8 ∧ encode? .Mono8 = some 0x01080001 ∧ decode 0 = none := by
   decide +kernel
+
+/-! ## 5. Growth round: size-field lies, the walk for all 32-bit size fields, views as Spec functions -/
+
+/-- **trailer_decode_ignores_size_field_lies**: the device-supplied `trailer_size` field plays
+no role in decoding (the code's real rule: only the BYTES RECEIVED count).
+(1) A trailer of at least the fixed 28 bytes never panics, its specific part is everything
+from byte 28, and each specific view succeeds exactly when the received bytes suffice
+(32 / 36 / 32), with the fields at their fixed offsets.
+(2) Overwriting bytes 6..8 (the size field) with ANY value changes nothing but the reported
+`trailer_size`: same outcome, same fields, same specific part — for every byte string. -/
+theorem trailer_decode_ignores_size_field_lies (b : Bytes) :
+    (28 ≤ b.length → Trailer.parse b ≠ .panic ∧ ∀ t, Trailer.parse b = .ok t →
+      t.raw = b.drop 28 ∧
+      ImageTrailer.fromBytes t.raw =
+        (if b.length < 32 then .err .bufferIo else .ok ⟨le b 28 4⟩) ∧
+      ImageExtendedChunkTrailer.fromBytes t.raw =
+        (if b.length < 36 then .err .bufferIo else .ok ⟨le b 28 4, le b 32 4⟩) ∧
+      ChunkTrailer.fromBytes t.raw =
+        (if b.length < 32 then .err .bufferIo else .ok ⟨le b 28 4⟩)) ∧
+    (∀ b', AgreeOutside 6 8 b b' →
+      Trailer.parse b' =
+        match Trailer.parse b with
+        | .ok t => .ok { t with trailerSize := le b' 6 2 }
+        | .err e => .err e
+        | .panic => .panic) := by
+  refine ⟨?_, ?_⟩
+  · intro h28
+    refine ⟨Trailer.parse_ne_panic b, ?_⟩
+    intro t ht
+    obtain ⟨_, _, _, _, _, _, hr⟩ := Trailer.parse_ok ht
+    rw [hr, ImageTrailer.fromBytes_eq, ImageExtendedChunkTrailer.fromBytes_eq, ChunkTrailer.fromBytes_eq]
+    simp only [List.length_drop, le_drop, Nat.reduceAdd]
+    refine ⟨by first | rfl | trivial, ?_, ?_, ?_⟩
+    · by_cases h : b.length < 32
+      · rw [if_pos h, if_pos (by omega)]
+      · rw [if_neg h, if_neg (by omega)]
+    · by_cases h : b.length < 36
+      · rw [if_pos h, if_pos (by omega)]
+      · rw [if_neg h, if_neg (by omega)]
+    · by_cases h : b.length < 32
+      · rw [if_pos h, if_pos (by omega)]
+      · rw [if_neg h, if_neg (by omega)]
+  · intro b' ⟨hlen, hlo, hhi⟩
+    rw [Trailer.parse_eq b', Trailer.parse_eq b, ← hlen,
+      ← le_congr_lo hlo 0 4 (by omega), ← le_congr_hi hhi 16 2 (by omega),
+      ← le_congr_hi hhi 8 8 (by omega), ← le_congr_hi hhi 20 8 (by omega),
+      ← drop_congr_hi hhi 28 (by omega)]
+    by_cases h1 : b.length < 4
+    · simp only [if_pos h1]
+    · simp only [if_neg h1]
+      by_cases h2 : le b 0 4 ≠ TRAILER_MAGIC
+      · simp only [if_pos h2]
+      · simp only [if_neg h2]
+        by_cases h3 : b.length < 18
+        · simp only [if_pos h3]
+        · simp only [if_neg h3]
+          cases PayloadStatus.tryFrom (le b 16 2) with
+          | panic => rfl
+          | err e => rfl
+          | ok s =>
+            dsimp only
+            by_cases h4 : b.length < 28
+            · simp only [if_pos h4]
+            · simp only [if_neg h4]
+
+/-- **leader_decode_ignores_size_field_lies**: likewise the device-supplied `leader_size` field
+(bytes 6..8) plays no role: overwriting it with ANY value changes nothing but the reported
+`leader_size` — same outcome, same block id and payload type, same specific part (hence the
+same specific-leader views) — for every byte string; and the specific part of a parsed leader
+is always everything from byte 20. -/
+theorem leader_decode_ignores_size_field_lies (b : Bytes) :
+    (∀ l, Leader.parse b = .ok l → l.raw = b.drop 20) ∧
+    (∀ b', AgreeOutside 6 8 b b' →
+      Leader.parse b' =
+        match Leader.parse b with
+        | .ok l => .ok { l with leaderSize := le b' 6 2 }
+        | .err e => .err e
+        | .panic => .panic) := by
+  refine ⟨fun l hl => (Leader.parse_ok hl).2.2.2.2.2, ?_⟩
+  intro b' ⟨hlen, hlo, hhi⟩
+  rw [Leader.parse_eq b', Leader.parse_eq b, ← hlen,
+    ← le_congr_lo hlo 0 4 (by omega), ← le_congr_hi hhi 18 2 (by omega),
+    ← le_congr_hi hhi 8 8 (by omega), ← drop_congr_hi hhi 20 (by omega)]
+  by_cases h1 : b.length < 4
+  · simp only [if_pos h1]
+  · simp only [if_neg h1]
+    by_cases h2 : le b 0 4 ≠ LEADER_MAGIC
+    · simp only [if_pos h2]
+    · simp only [if_neg h2]
+      by_cases h3 : b.length < 20
+      · simp only [if_pos h3]
+      · simp only [if_neg h3]
+        cases PayloadType.tryFrom (le b 18 2) with
+        | panic => rfl
+        | err e => rfl
+        | ok s => rfl
+
+/-- **chunk_walk_total_and_exact**: for every payload buffer, every `valid_payload_size` within
+it and both build profiles, the backwards chunk walk of `build_image_extended_payload`
+terminates, never panics (no slice index out of range, no failing `try_into().unwrap()`, no
+`usize` overflow — for ALL 32-bit size fields, `0xFFFF_FFFC ..= 0xFFFF_FFFF` included), gives
+the same result in the dev and the release profile, accepts exactly the Spec's chunk layouts
+returning the first chunk's size with `image_size + 8 ≤ valid`, and answers a size field that
+claims more than what precedes it with an error. -/
+theorem chunk_walk_total_and_exact (p : Profile) (buf : Bytes) (valid : Nat)
+    (hlen : valid ≤ buf.length) (h64 : valid < 2 ^ 64) :
+    (∀ fuel, valid < fuel → chunkWalk p buf fuel valid ≠ none) ∧
+    chunkWalkRun p buf valid ≠ .panic ∧
+    (∀ q, chunkWalkRun q buf valid = chunkWalkRun p buf valid) ∧
+    (∀ s, chunkWalkRun p buf valid = .ok s ↔
+      ∃ ns, StreamLayout.ChunksBack buf valid ns ∧ ns.getLast? = some s) ∧
+    (∀ s, chunkWalkRun p buf valid = .ok s → s + 8 ≤ valid) ∧
+    (∀ n, 4 ≤ valid →
+      StreamLayout.chunkLenAt StreamLayout.chunkLengthOrder buf (valid - 4) = some n →
+      valid < n + 8 → chunkWalkRun p buf valid = .err .invalidPayload) := by
+  obtain ⟨r, hr, hrun⟩ := chunkWalkRun_eq p buf valid
+  have hs := chunkWalk_sound p buf _ _ hlen h64 r hr
+  refine ⟨fun fuel hf => walk_terminates p buf fuel valid hf, by rw [hrun]; exact hs.1,
+    fun q => chunkWalkRun_profile_indep q p buf valid hlen h64,
+    fun s => walk_exact p buf valid s hlen h64, ?_, ?_⟩
+  · intro s h
+    rw [hrun] at h
+    exact (hs.2 s h).1
+  · intro n h4 hn hbig
+    exact chunkWalkRun_oversize p buf valid n h4 hlen h64 hn hbig
+
+/-- **image_leader_decoders_agree**: the two duplicated specific-leader decoders
+(`ImageLeader::from_bytes`, `ImageExtendedChunkLeader::from_bytes`) are the same function on
+every byte string (of the model; the harness feeds both real decoders every generated leader
+and compares each with the model). -/
+theorem image_leader_decoders_agree (b : Bytes) :
+    ImageExtendedChunkLeader.fromBytes b = ImageLeader.fromBytes b := rfl
+
+/-- **build_payload_views_consistent (Image)**: for every accepted (leader bytes, payload buffer,
+trailer bytes) triple of payload type Image, every view the `Payload` offers is the Spec's
+function of the three packets: id = leader block id, timestamp / width / offsets / pixel format
+(through the generated table) = the Spec image leader's, height = the Spec image trailer's,
+valid size = the Spec trailer's (status success, `≤ recv`), image size = valid size, and
+`payload()`, `image()`, `into_vec()` are exactly the first `valid` bytes of the buffer. -/
+theorem build_payload_views_consistent_image {ε : Type} (p : Profile) (lb tb buf : Bytes)
+    (recv : Nat) (pl : Payload) (hrecv : recv ≤ buf.length)
+    (h : verifBuildPayload p lb tb buf recv = .ok pl) (hty : pl.payloadType = .image) :
+    ∃ g st sl ht f,
+      StreamLayout.genericLeader lb = some g ∧ g.payloadType = .image ∧
+      StreamLayout.genericTrailer tb = some st ∧ st.status = .success ∧
+      StreamLayout.imageLeader lb = some sl ∧ StreamLayout.imageTrailerHeight tb = some ht ∧
+      decode sl.pixelFormatCode = some f ∧ st.validPayloadSize ≤ recv ∧
+      pl.id = g.blockId ∧ pl.timestampNs = sl.timestamp ∧
+      pl.validPayloadSize = st.validPayloadSize ∧
+      pl.imageInfo = some ⟨sl.width, ht, sl.xOffset, sl.yOffset, f, st.validPayloadSize⟩ ∧
+      (pl.payloadView : Res ε Bytes) = .ok (buf.take st.validPayloadSize) ∧
+      (pl.image : Res ε (Option Bytes)) = .ok (some (buf.take st.validPayloadSize)) ∧
+      pl.intoVec = buf.take st.validPayloadSize := by
+  obtain ⟨l, t, hl, ht, hwf, hb⟩ := verifBuild_unpack h
+  have B := build_bounds p l t buf recv pl hrecv hwf hb
+  have hlt : l.payloadType = .image := by rw [← B.type]; exact hty
+  have parts := B.parts
+  simp only [hlt] at parts
+  obtain ⟨il, it, hil, hit, hts, hinfo⟩ := parts
+  obtain ⟨sl, hsl, e1, e2, e3, _, e5, e6, _⟩ := image_leader_faithful lb l il hl hil
+  have hh := (specific_trailers_faithful tb t ht).1 it hit
+  obtain ⟨v1, v2, _, v4⟩ := views_in_bounds (ε := ε) p l t buf recv pl hrecv hwf hb
+  have hv := B.valid
+  have v4' := v4 _ hinfo
+  refine ⟨_, _, sl, it.actualHeight, il.pixelFormat, (leader_parse_faithful lb l hl).1, by rw [hlt]; rfl,
+    (trailer_parse_faithful tb t ht).1, by rw [B.status]; rfl, hsl, hh, e2, by rw [← hv]; exact B.valid_le,
+    B.id, by rw [hts, e1], hv, by rw [hinfo, e3, e5, e6], by rw [v1, hv], by rw [v4'], by rw [v2, hv]⟩
+
+/-- **build_payload_views_consistent (Chunk)**: id = leader block id, timestamp = the Spec
+chunk leader's, valid size = the Spec trailer's (status success, `≤ recv`), the chunk trailer
+is present, there is no image (`image_info = None`, `image() = None`), and `payload()` /
+`into_vec()` are exactly the first `valid` bytes of the buffer. -/
+theorem build_payload_views_consistent_chunk {ε : Type} (p : Profile) (lb tb buf : Bytes)
+    (recv : Nat) (pl : Payload) (hrecv : recv ≤ buf.length)
+    (h : verifBuildPayload p lb tb buf recv = .ok pl) (hty : pl.payloadType = .chunk) :
+    ∃ g st ts lay,
+      StreamLayout.genericLeader lb = some g ∧ g.payloadType = .chunk ∧
+      StreamLayout.genericTrailer tb = some st ∧ st.status = .success ∧
+      StreamLayout.chunkLeaderTimestamp lb = some ts ∧
+      StreamLayout.chunkTrailerLayoutId tb = some lay ∧ st.validPayloadSize ≤ recv ∧
+      pl.id = g.blockId ∧ pl.timestampNs = ts ∧ pl.validPayloadSize = st.validPayloadSize ∧
+      pl.imageInfo = none ∧
+      (pl.payloadView : Res ε Bytes) = .ok (buf.take st.validPayloadSize) ∧
+      (pl.image : Res ε (Option Bytes)) = .ok none ∧
+      pl.intoVec = buf.take st.validPayloadSize := by
+  obtain ⟨l, t, hl, ht, hwf, hb⟩ := verifBuild_unpack h
+  have B := build_bounds p l t buf recv pl hrecv hwf hb
+  have hlt : l.payloadType = .chunk := by rw [← B.type]; exact hty
+  have parts := B.parts
+  simp only [hlt] at parts
+  obtain ⟨cl, ct, hcl, hct, hts, hinfo⟩ := parts
+  have hts' := chunk_leader_faithful lb l cl hl hcl
+  have hlay := (specific_trailers_faithful tb t ht).2.2 ct hct
+  obtain ⟨v1, v2, v3, _⟩ := views_in_bounds (ε := ε) p l t buf recv pl hrecv hwf hb
+  have hv := B.valid
+  refine ⟨_, _, cl.timestamp, ct.chunkLayoutId, (leader_parse_faithful lb l hl).1, by rw [hlt]; rfl,
+    (trailer_parse_faithful tb t ht).1, by rw [B.status]; rfl, hts', hlay, by rw [← hv]; exact B.valid_le,
+    B.id, hts, hv, hinfo, by rw [v1, hv], v3 hinfo, by rw [v2, hv]⟩
+
+/-- **build_payload_views_consistent (ImageExtendedChunk)**: as for Image, with the Spec
+extended-chunk trailer (height, layout id), and the image is the FIRST chunk of the Spec chunk
+layout of `buf[0..valid)`: image size `s` with `s + 8 ≤ valid`, `image()` = first `s` bytes. -/
+theorem build_payload_views_consistent_image_extended_chunk {ε : Type} (p : Profile)
+    (lb tb buf : Bytes) (recv : Nat) (pl : Payload) (hrecv : recv ≤ buf.length)
+    (h : verifBuildPayload p lb tb buf recv = .ok pl)
+    (hty : pl.payloadType = .imageExtendedChunk) :
+    ∃ g st sl ht lay f s ns,
+      StreamLayout.genericLeader lb = some g ∧ g.payloadType = .imageExtendedChunk ∧
+      StreamLayout.genericTrailer tb = some st ∧ st.status = .success ∧
+      StreamLayout.imageLeader lb = some sl ∧ StreamLayout.extTrailer tb = some (ht, lay) ∧
+      decode sl.pixelFormatCode = some f ∧ st.validPayloadSize ≤ recv ∧
+      StreamLayout.ChunksBack buf st.validPayloadSize ns ∧ ns.getLast? = some s ∧
+      s + 8 ≤ st.validPayloadSize ∧
+      pl.id = g.blockId ∧ pl.timestampNs = sl.timestamp ∧
+      pl.validPayloadSize = st.validPayloadSize ∧
+      pl.imageInfo = some ⟨sl.width, ht, sl.xOffset, sl.yOffset, f, s⟩ ∧
+      (pl.payloadView : Res ε Bytes) = .ok (buf.take st.validPayloadSize) ∧
+      (pl.image : Res ε (Option Bytes)) = .ok (some (buf.take s)) ∧
+      pl.intoVec = buf.take st.validPayloadSize := by
+  obtain ⟨l, t, hl, ht, hwf, hb⟩ := verifBuild_unpack h
+  have B := build_bounds p l t buf recv pl hrecv hwf hb
+  have hlt : l.payloadType = .imageExtendedChunk := by rw [← B.type]; exact hty
+  have parts := B.parts
+  simp only [hlt] at parts
+  obtain ⟨il, it, s, hil, hit, hts, hinfo, hle, ns, hch, hlast⟩ := parts
+  obtain ⟨sl, hsl, e1, e2, e3, _, e5, e6, _⟩ :=
+    image_extended_chunk_leader_faithful lb l il hl hil
+  have hh := (specific_trailers_faithful tb t ht).2.1 it hit
+  obtain ⟨v1, v2, _, v4⟩ := views_in_bounds (ε := ε) p l t buf recv pl hrecv hwf hb
+  have hv := B.valid
+  have v4' := v4 _ hinfo
+  refine ⟨_, _, sl, it.actualHeight, it.chunkLayoutId, il.pixelFormat, s, ns,
+    (leader_parse_faithful lb l hl).1, by rw [hlt]; rfl,
+    (trailer_parse_faithful tb t ht).1, by rw [B.status]; rfl, hsl, hh, e2,
+    by rw [← hv]; exact B.valid_le, hch, hlast, hle,
+    B.id, by rw [hts, e1], hv, by rw [hinfo, e3, e5, e6], by rw [v1, hv], by rw [v4'], by rw [v2, hv]⟩
+
+/-! ### Non-vacuity of the growth-round theorems -/
+
+/-- the example trailer with a LYING size field (claims 4 bytes, i.e. less than the fixed part) -/
+def exTrailerLie : Bytes := (exTrailer.set 6 4).set 7 0
+
+/-- the example leader claiming `leader_size = 0` -/
+def exLeaderLie : Bytes := (exLeader.set 6 0).set 7 0
+
+example : AgreeOutside 6 8 exLeader exLeaderLie ∧ ∃ l, Leader.parse exLeaderLie = .ok l ∧ l.leaderSize = 0 ∧
+    (ImageLeader.fromBytes l.raw).isOk = true :=
+  ⟨⟨by decide, by decide, by decide⟩, ⟨0, 51, .image, exLeaderLie.drop 20⟩, by decide, rfl, by decide +kernel⟩
+
+example : AgreeOutside 6 8 exTrailer exTrailerLie := ⟨by decide, by decide, by decide⟩
+
+example : ∃ t, Trailer.parse exTrailerLie = .ok t ∧ t.trailerSize = 4 ∧ t.validPayloadSize = 20 ∧
+    ImageExtendedChunkTrailer.fromBytes t.raw = .ok ⟨2, 7⟩ := by
+  refine ⟨⟨4, 51, .success, 20, exTrailerLie.drop 28⟩, by decide, rfl, rfl, by decide⟩
+
+/-- a size field of 0xFFFF_FFFF at the end of an 8-byte valid region: error in both profiles -/
+def exBufHuge : Bytes := [0, 0, 0, 1, 0xFF, 0xFF, 0xFF, 0xFF]
+
+example : chunkWalkRun .dev exBufHuge 8 = .err .invalidPayload ∧
+    chunkWalkRun .release exBufHuge 8 = .err .invalidPayload ∧
+    StreamLayout.chunkLenAt StreamLayout.chunkLengthOrder exBufHuge 4 = some 0xFFFFFFFF := by decide
+
+example : ∃ pl, verifBuildPayload .dev exLeaderExt exTrailer exBuf 20 = .ok pl ∧
+    pl.payloadType = .imageExtendedChunk := by
+  refine ⟨⟨51, .imageExtendedChunk, some ⟨16, 2, 0, 0, .Mono8, 4⟩, exBuf, 20, 100⟩, by decide +kernel, rfl⟩
+
+example : ∃ pl, verifBuildPayload .dev exLeader exTrailer exBuf 22 = .ok pl ∧ pl.payloadType = .image := by
+  refine ⟨⟨51, .image, some ⟨16, 2, 0, 0, .Mono8, 20⟩, exBuf, 20, 100⟩, by decide +kernel, rfl⟩
+
+/-- a 28-byte chunk leader (type 0x4000) and the example trailer read as a chunk trailer -/
+def exLeaderChunk : Bytes := (exLeader.take 28).set 18 0x00 |>.set 19 0x40
+
+example : ∃ pl, verifBuildPayload .dev exLeaderChunk exTrailer exBuf 20 = .ok pl ∧
+    pl.payloadType = .chunk ∧ pl.imageInfo = none := by
+  refine ⟨⟨51, .chunk, none, exBuf, 20, 100⟩, by decide +kernel, rfl, rfl⟩
+
+example : ImageExtendedChunkLeader.fromBytes (exLeader.drop 20) = ImageLeader.fromBytes (exLeader.drop 20) ∧
+    (ImageLeader.fromBytes (exLeader.drop 20)).isOk = true := by decide +kernel
 
 end CamVerif.C11
